@@ -299,7 +299,7 @@ pub fn run(ctx: &Ctx) -> Result<Evidence, String> {
     let n_f = fs.len() * 2; // arr + obj
     let n_ex = ex_q.len();
     let n_sc = sc_q.len() * sc_docs.len();
-    let n_rand = ctx.tier.pick(40_000, 1_000_000);
+    let n_rand = ctx.tier.pick(40_000, 4_000_000);
     let mut qcfg = gen::QueryCfg::default();
     qcfg.filter_depth = 3;
     qcfg.names = ["a", "b", "k", "t", "x", "y", "n", "arr"].iter().map(|s| s.to_string()).collect();
